@@ -528,3 +528,89 @@ Proof.
   intros kv H. specialize (B kv H). unfold node_okb in B. rewrite !andb_true_iff, coord_eqb_eq, !Nat.eqb_eq, Nat.leb_le in B.
   unfold node_ok. tauto.
 Qed.
+
+(* ---------- statements in terms of the specification predicate `wellformed` ---------- *)
+Lemma WF_wellformed n : WF n <-> wellformed n.
+Proof.
+  unfold WF, WFm, wellformed, keys. split; intros [ND F]; split; auto.
+  - intros c nd H. rewrite Forall_forall in F. destruct (F _ H) as (A & B & C & D). cbn in *. repeat split; auto. lia.
+  - apply Forall_forall. intros [c nd] H. destruct (F _ _ H) as (A & B & C & D). unfold node_ok; cbn. repeat split; auto. lia.
+Qed.
+
+Lemma wf_step n o n' : wellformed n -> step n o = Ok n' -> wellformed n' /\ dim n' = dim n /\ fcap n' = fcap n.
+Proof.
+  rewrite <- !WF_wellformed. intros W H. destruct o; cbn [step] in H.
+  - apply store_batch_spec in H as (W' & (A & B & _) & _); auto.
+  - apply smooth_spec in H as (W' & (A & B & _) & _); auto.
+  - apply compact_spec in H as (W' & A & B & _); auto.
+Qed.
+
+Lemma wf_history cfg data assign rounds n ops n' :
+  network_new cfg data assign rounds = Created n -> run n ops = Ok n' ->
+  wellformed n' /\ (4 <= size n')%nat /\ fcap n' = node_size cfg /\ dim n' = length (it_w (hd (mkI 0 0 0 []) data)).
+Proof.
+  intros N R. apply network_new_spec in N as (W & S & C & D).
+  apply run_good in R as ((W' & S') & A & B); [|split; auto]. rewrite <- WF_wellformed. repeat split; auto; try apply W'; congruence.
+Qed.
+
+Lemma wf_lookup n c nd : wellformed n ->
+  (lookup c (nodes n) = Some nd <-> In (c, nd) (nodes n)) /\ (lookup c (nodes n) = Some nd -> n_c nd = c).
+Proof.
+  intros W. pose proof W as W0. apply WF_wellformed in W. split; [apply (find_exact _ _ _ _ _ W)|].
+  intros H. apply lookup_Some_In in H. apply (proj2 W0) in H. tauto.
+Qed.
+
+Lemma wf_lookup_absent n c : lookup c (nodes n) = None <-> ~ In c (map fst (nodes n)).
+Proof. split; [apply lookup_None_notin|apply lookup_notin_None]. Qed.
+
+Lemma wf_store n data n' : wellformed n -> store_batch n data = Ok n' ->
+  (forall c, In c (map fst (nodes n)) -> In c (map fst (nodes n'))) /\ (size n <= size n')%nat.
+Proof. rewrite <- WF_wellformed. intros W H. apply store_batch_spec in H as (_ & (_ & _ & A & B) & _); auto. Qed.
+
+Lemma wf_smooth n rounds n' : wellformed n -> smooth n rounds = Ok n' -> map fst (nodes n') = map fst (nodes n).
+Proof. rewrite <- WF_wellformed. intros W H. apply smooth_spec in H as (_ & _ & K); auto. Qed.
+
+Lemma wf_compact n os n' : wellformed n -> compact n os = Ok n' ->
+  wellformed n' /\ (size n' <= size n)%nat /\ ((4 <= size n')%nat \/ n' = n) /\
+  (n' = n \/
+   ((size n' + length (filter (fun c => negb (compact_keeps n c)) (map fst (nodes n))) = size n)%nat /\
+    (forall c', In c' (map fst (nodes n')) <-> exists c, In c (map fst (nodes n)) /\ compact_keeps n c = true /\ c' = compact_map n c))).
+Proof.
+  rewrite <- !WF_wellformed. intros W H. apply compact_spec in H as (W' & _ & _ & [->|(A & B & C)]); auto.
+  - split; [exact W'|]. split; [lia|]. split; [right; reflexivity|left; reflexivity].
+  - split; auto. fold (keys (nodes n)) in *. unfold kept, cdec in B. unfold compact_keeps, compact_decims.
+    split; [lia|]. split; [auto|]. right. split; [exact B|exact C].
+Qed.
+
+Lemma wf_compact_injective n a b : compact_keeps n a = true -> compact_keeps n b = true -> compact_map n a = compact_map n b -> a = b.
+Proof.
+  unfold compact_keeps, compact_map, compact_decims. destruct (decims (shape (nodes n)) 3 4) as [xd yd] eqn:DE.
+  apply decims_34 in DE as [Hx Hy]. cbn [fst snd]. rewrite !negb_true_iff. intros A B. apply remap_coord_inj; auto.
+Qed.
+
+Lemma ro_history dd c ops1 ops2 s1 s2 :
+  rrun dd (ro_new c) ops1 = Ok s1 -> rrun dd (ro_new c) (ops1 ++ ops2) = Ok s2 ->
+  (phase_rank (ro_phase s1) <= phase_rank (ro_phase s2))%nat /\
+  (length (ro_elite s1) <= r_elite c)%nat /\ (length (ro_elite s2) <= r_elite c)%nat.
+Proof.
+  intros H1 H2. rewrite rrun_app, H1 in H2. cbn [bind] in H2.
+  apply rrun_forward in H1 as (_ & C1 & I1). apply rrun_forward in H2 as (P2 & C2 & I2).
+  assert (I0 : ro_inv (ro_new c)) by (unfold ro_inv; cbn; lia).
+  specialize (I1 I0). specialize (I2 I1). unfold ro_inv in *. rewrite C2, C1 in I2. rewrite C1 in I1. cbn in *. auto.
+Qed.
+
+(* witnesses *)
+Definition grid5 : net := mkNet (map (fun c => (c, mkN c 1 0 2 [])) (list_prod (range 2) (range 2))) 1 2.
+Lemma compact_witness : exists n n', wellformed n /\ compact n [] = Ok n' /\ (size n' < size n)%nat /\ size n' = 16%nat.
+Proof.
+  exists grid5. eexists. split; [apply WF_wellformed, wfb_WF; vm_compute; reflexivity|].
+  split; [vm_compute; reflexivity|]. vm_compute. split; [lia|reflexivity].
+Qed.
+Definition w_data := [mkI 0 0 0 [0; 0]; mkI 1 1 1 [10; -10]; mkI 2 2 2 [20; -20]; mkI 3 3 3 [30; -30]].
+Definition w_round : list oobs := [(0, (0, 0), false); (1, (1, 0), false); (2, (0, 1), false); (3, (1, 1), false)].
+Lemma history_witness : exists n n',
+  network_new (mkCfg 2) w_data w_round (repeat w_round 8) = Created n /\
+  run n [OStore [(mkI 9 0 9 [5; 5], (0, 0), true)]; OCompact []] = Ok n' /\ size n = 4%nat /\ size n' = 6%nat.
+Proof. eexists. eexists. split; [vm_compute; reflexivity|]. split; [vm_compute; reflexivity|]. vm_compute. auto. Qed.
+Lemma phase_witness : exists s, rrun dedupf (ro_new (mkR 4 2 900)) [RAdd w_data; RGen 10 900; RGen 950 900] = Ok s /\ ro_phase s = PExploitation.
+Proof. eexists. split; vm_compute; reflexivity. Qed.
